@@ -756,7 +756,10 @@ def grow_rule(rep, prog, cfg):
     from .C09 import is_await_cycle
     from .C10 import READS_EXT
     rule = "C02.grow"
-    GROW = ("bytes::bytes_mut::BytesMut::resize", "bytes::bytes_mut::BytesMut::reserve", "bytes::bytes_mut::BytesMut::extend_from_slice")
+    # growth = the *length* of the padded buffer increases (the read is handed `&mut buf[n..]`, a slice of the initialised length);
+    # `reserve` only raises the capacity and leaves the slice empty
+    GROW = ("bytes::bytes_mut::BytesMut::resize", "bytes::bytes_mut::BytesMut::extend_from_slice", "bytes::buf::buf_mut::BufMut::put_bytes",
+            "bytes::buf::buf_mut::BufMut::put_slice", "alloc::vec::Vec::resize", "alloc::vec::Vec::extend_from_slice")
     lb = conn_bodies(prog)
     helpers = {n for n in READS if n not in READS_EXT}
 
